@@ -228,7 +228,10 @@ def generate(seed):
         threads.append(ops)
     for w in pending_drop:
         prolog += ["del M %d" % w, "new M %d" % w]
-    return {"seed": seed, "prolog": prolog, "threads": threads, "epilog": [], "first": r.randint(1, n), "mode": mode}
+    # after the join the main thread may drop or free the device (handles that survived in the workers' slots must
+    # then read uninitialized, every backend object must be gone, nothing may be freed twice)
+    epilog = r.choice([[], [], ["free D 0"], ["del D 0", "new D 0"], ["free M 0", "free M 1", "free D 0"]])
+    return {"seed": seed, "prolog": prolog, "threads": threads, "epilog": epilog, "first": r.randint(1, n), "mode": mode}
 
 
 # ------------------------------------------------------------------ schedules
